@@ -55,6 +55,19 @@ def r14a(ck, prog):
                              "alignment without passing the alphabet table" % name, prog.config)
     if T.name not in readers:
         raise AnalysisBroken("R14a: %s does not read msa_seq.seq" % T.name)
+    # no case mapping anywhere in the computation
+    for name in sorted(reach):
+        F = cg.defined.get(name)
+        if F is None:
+            continue
+        for c in F.body.calls("toupper", "tolower"):
+            ck.violation("R14a", "R14a/%s/%s" % (name, c.callee), site(prog, c),
+                         "%s calls %s during the computation: letter case is being inspected or changed outside the alphabet table" % (name, c.callee),
+                         prog.config)
+        for x in F.body.walk():
+            if x.k == "BinaryOperator" and x.d["op"] == "&" and x.mac and any(m in ("toupper", "tolower", "isupper", "islower") for m in x.mac):
+                ck.violation("R14a", "R14a/%s/case-test" % name, site(prog, x),
+                             "%s tests letter case during the computation" % name, prog.config)
     # inside the translation function: how is the letter used?
     tab_alias = set()
     for m in member_accesses(T.body, "alphabet", "to_internal"):
